@@ -595,3 +595,59 @@ func (eng *Engine) valInvs(t types.Type) []valInv {
 	}
 	return out
 }
+
+// convInvs: conversion-site obligations the package of fn declares for the named type t.
+func (eng *Engine) convInvs(fn *ssa.Function, t types.Type) []valInv {
+	n, ok := t.(*types.Named)
+	if !ok || n.Obj().Pkg() == nil {
+		return nil
+	}
+	root := fn
+	for root.Parent() != nil {
+		root = root.Parent()
+	}
+	if root.Pkg == nil {
+		return nil
+	}
+	fs := eng.specs[root.Pkg.Pkg.Path()+"::convinv:"+n.Obj().Pkg().Path()+"."+n.Obj().Name()]
+	if fs == nil {
+		return nil
+	}
+	var out []valInv
+	for _, c := range fs.Clauses {
+		out = append(out, valInv{fs, c})
+	}
+	return out
+}
+
+// convertsTagged: fn (or a closure in it) converts a non-constant value to a type with a tagged convinv rule.
+func (eng *Engine) convertsTagged(fn *ssa.Function, tag string) bool {
+	for _, b := range fn.Blocks {
+		for _, in := range b.Instrs {
+			var from ssa.Value
+			var to types.Type
+			switch x := in.(type) {
+			case *ssa.ChangeType:
+				from, to = x.X, x.Type()
+			case *ssa.Convert:
+				from, to = x.X, x.Type()
+			default:
+				continue
+			}
+			if _, isConst := from.(*ssa.Const); isConst {
+				continue
+			}
+			for _, ci := range eng.convInvs(fn, to) {
+				if ci.c.HasTag(tag) {
+					return true
+				}
+			}
+		}
+	}
+	for _, a := range fn.AnonFuncs {
+		if eng.convertsTagged(a, tag) {
+			return true
+		}
+	}
+	return false
+}
